@@ -30,8 +30,9 @@ META = dict(
 STUBS = dict(bins="contract")
 
 
-def _members(kind, kw, coding=(True, False), par=None):
-    """two members; member 0 at (s0,l0), member 1 at (s1,l1)"""
+def _members(kind, kw, coding=(True, False), par=None, shared=False):
+    """two members; member 0 at (s0,l0), member 1 at (s1,l1). shared: gene and feature collection carry the SAME locus tag (an identifier shared across
+    member types)"""
     out = []
     for i in range(2):
         s, l = kw["s%d" % i], kw["l%d" % i]
@@ -42,12 +43,12 @@ def _members(kind, kw, coding=(True, False), par=None):
                                         parent_or_seq_chunk_parent=par)
             else:
                 tx = TranscriptInterval([s], [s + l], MINUS, guid=600 + i, transcript_id="tx%d" % i, parent_or_seq_chunk_parent=par)
-            out.append(GeneInterval([tx], guid=700 + i, gene_id="gene%d" % i, gene_symbol="sym%d" % i, locus_tag="lt%d" % i,
+            out.append(GeneInterval([tx], guid=700 + i, gene_id="gene%d" % i, gene_symbol="sym%d" % i, locus_tag="shared_lt" if shared else "lt%d" % i,
                                     parent_or_seq_chunk_parent=par))
         elif k == "fc":
             f = FeatureInterval([s], [s + l], PLUS, guid=600 + i, feature_name="feat%d" % i, parent_or_seq_chunk_parent=par)
             out.append(FeatureIntervalCollection([f], guid=700 + i, feature_collection_id="fc%d" % i, feature_collection_name="fcn%d" % i,
-                                                 parent_or_seq_chunk_parent=par))
+                                                 locus_tag="shared_lt" if shared else None, parent_or_seq_chunk_parent=par))
         else:
             v = VariantInterval(s, s + l, "A" * 1, "SNV", guid=600 + i, parent_or_seq_chunk_parent=par)
             out.append(VariantIntervalCollection([v], guid=700 + i, variant_collection_id="vc%d" % i, parent_or_seq_chunk_parent=par))
@@ -134,11 +135,11 @@ def default_bounds_fn(kind):
     return fn
 
 
-def guid_fn(kind, which, req):
+def guid_fn(kind, which, req, shared=False):
     """req: tuple of requested ids (concrete); coordinates symbolic"""
 
     def fn(**kw):
-        members = _members(kind, kw)
+        members = _members(kind, kw, shared=shared)
         coll = _collection(kind, members, kw["lo"], kw["hi"])
         if which == "guids":
             res = coll.query_by_guids(list(req))
@@ -154,7 +155,8 @@ def guid_fn(kind, which, req):
             exp = [700 + i for i in range(2) if (600 + i) in req and kind[i] == "fc"]
         else:
             res = coll.query_by_feature_identifiers(list(req))
-            idents = [{"gene": {"gene%d" % i, "sym%d" % i, "lt%d" % i}, "fc": {"fc%d" % i, "fcn%d" % i}, "vc": {"vc%d" % i}}[kind[i]] for i in range(2)]
+            idents = [{"gene": {"gene%d" % i, "sym%d" % i, "shared_lt" if shared else "lt%d" % i}, "fc": {"fc%d" % i, "fcn%d" % i} | ({"shared_lt"} if shared else set()),
+                       "vc": {"vc%d" % i}}[kind[i]] for i in range(2)]
             exp = [700 + i for i in range(2) if idents[i] & set(req)]
         got = [c.guid for c in res.iter_children()]
         conds = [sorted(got) == sorted(exp), len(got) == len(set(got)), res.start == kw["lo"], res.end == kw["hi"]]
@@ -344,6 +346,39 @@ def obligations(tier):
                                desc="%s query returns exactly the matching members (no duplicates), with unchanged coordinates and children, bounds = collection bounds" % which,
                                bounds="2 members, requested ids %s, unbounded symbolic coordinates" % (req,),
                                examples=[dict(gex, l1=1) if kind[1] == "vc" else gex]))
+    def mixed_gene_fn(flag_noncoding, order):
+        """a gene with a coding and a non-coding isoform (the non-coding one optionally flagged primary, in either list order) IS coding: it passes the
+        coding_only filter of position queries"""
+
+        def fn(s0, l0, s1, l1, lo, hi, qs, qe, within):
+            nc = TranscriptInterval([s0], [s0 + l0], MINUS, guid=600, is_primary_tx=flag_noncoding)
+            cd = TranscriptInterval([s1], [s1 + l1], PLUS, [s1], [s1 + l1], [CDSFrame.ZERO], guid=601)
+            gene = GeneInterval([nc, cd] if order == 0 else [cd, nc], guid=700)
+            coll = AnnotationCollection(genes=[gene], sequence_name="chr1", start=lo, end=hi)
+            res = coll.query_by_position(qs, qe, coding_only=True, completely_within=within)
+            gs, ge = MIN([s0, s1]), MAX([s0 + l0, s1 + l1])
+            passes = AND(qs <= gs, ge <= qe) if within else AND(gs < qe, qs < ge)
+            got = [c.guid for c in res.iter_children()]
+            return AND(IFF(700 in got, passes), gene.is_coding)
+
+        return fn
+
+    for flag in (False, True):
+        for order in (0, 1):
+            if quick and not flag:
+                continue
+            out.append(Obl("coding_only_mixed_gene_flag%d_order%d" % (flag, order), mixed_gene_fn(flag, order),
+                           dict(s0=int, l0=int, s1=int, l1=int, lo=int, hi=int, qs=int, qe=int, within=bool),
+                           lambda s0, l0, s1, l1, lo, hi, qs, qe, within: s0 >= 0 and l0 >= 1 and s1 >= 0 and l1 >= 1 and 0 <= lo and lo <= s0 and lo <= s1
+                           and s0 + l0 <= hi and s1 + l1 <= hi and lo <= qs and qs < qe and qe <= hi, budget=600, cost=60,
+                           desc="coding_only position query on a gene with one coding and one non-coding isoform%s: the gene is coding and is returned exactly when "
+                                "its span passes the range test" % (" (the non-coding isoform flagged primary)" if flag else ""),
+                           bounds="1 gene, 2 isoforms, unbounded symbolic coordinates/bounds/query, both modes", examples=[dict(s0=12, l0=8, s1=30, l1=6, lo=2, hi=60, qs=10, qe=40, within=True)]))
+    for req in (("shared_lt",), ("shared_lt", "nosuch"), ("fc1", "shared_lt"), ("gene0",)):
+        out.append(Obl("ids_identifiers_shared_across_types_%s" % "-".join(req), guid_fn(("gene", "fc"), "identifiers", req, shared=True), dict(gbase), gpre_for(("gene", "fc")),
+                       budget=400, cost=25, desc="identifier query when a gene and a feature collection share one identifier (locus tag): every member carrying a "
+                                                 "requested identifier is returned, whatever its type", bounds="2 members, requested ids %s, unbounded symbolic coordinates" % (req,),
+                       examples=[gex]))
     out.append(Obl("interval_guids_keep_requested_grandchildren", interval_guid_subset_fn(),
                    dict(s0=int, l0=int, g=int, l1=int, lo=int, hi=int, r0=bool, r1=bool, r2=bool),
                    lambda s0, l0, g, l1, lo, hi, r0, r1, r2: s0 >= 0 and l0 >= 1 and g >= 1 and l1 >= 1 and 0 <= lo and lo <= s0 and s0 + l0 + g + l1 <= hi,
